@@ -197,6 +197,22 @@ func oracle(c acc.Case, idx int, e *acc.Env, res *lib.Result) {
 	}
 }
 
+// oracleHist maps the findings of the shared history oracle to this property's clauses.
+func oracleHist(c acc.Case, idx int, res *lib.Result) {
+	clause := map[string]string{"answered": "always-answers", "success-for-invalid": "success-only-if-valid",
+		"refusal-changed-lists": "stateless-failure", "probe-not-served": "next-request-served"}
+	for _, f := range acc.JudgeHistory(c) {
+		hist := c
+		hist.Ops, hist.Outs = c.Ops[:f.Op+1], c.Outs[:f.Op+1] // the history so far
+		part := f.Part
+		if i := strings.Index(part, "/"); i > 0 {
+			part = part[:i]
+		}
+		res.Violate(lib.Violation{Clause: clause[f.Clause], Case: idx, Key: clause[f.Clause] + ":" + f.Route + ":" + part, Replay: hist,
+			Detail: fmt.Sprintf("history %s (%d operations so far): %s", c.Name, f.Op+1, f.Detail)})
+	}
+}
+
 func main() {
 	a := lib.ParseArgs()
 	acc.Supervise("C11", a, 280*time.Second, func() { work(a) })
@@ -208,11 +224,19 @@ func work(a lib.Args) {
 	envs := map[bool]*acc.Env{false: acc.StartMockAPI(false), true: acc.StartMockAPI(true)}
 
 	var cases []acc.Case
+	var steps [][]int // positions of the test requests of each case
 	n := 0
 	add := func(e *acc.Env, now int64, x acc.Req) {
 		c := wrap(e, now, n, x)
 		c.Cfg = e.Cfg
 		cases = append(cases, c)
+		steps = append(steps, []int{iX})
+		n++
+	}
+	addHist := func(c acc.Case, m acc.HistMeta) {
+		c.Tags = append(c.Tags, "hist")
+		cases = append(cases, c)
+		steps = append(steps, m.Steps)
 		n++
 	}
 	if a.Replay != "" {
@@ -220,6 +244,16 @@ func work(a lib.Args) {
 		lib.ReadReplayCase(a.Replay, &c)
 		c.Rebase(envs[c.Cfg.AE])
 		cases = []acc.Case{c}
+		st := []int{}
+		for i, o := range c.Ops {
+			if o.Req != nil && (o.Req.Label == "step" || o.Req.Label == "step-repeat") {
+				st = append(st, i)
+			}
+		}
+		if len(st) == 0 {
+			st = []int{iX}
+		}
+		steps = [][]int{st}
 	} else {
 		pickEnv := func(r *lib.Rng) (*acc.Env, int64) {
 			return envs[r.Bool()], int64(1600000000 + r.Intn(200000000))
@@ -348,6 +382,34 @@ func work(a lib.Args) {
 		}
 	}
 
+	if a.Replay == "" {
+		// (8) scripted idempotence sequences: the same valid request twice, writes that find the store already
+		// holding exactly that value, one bearer before and after its window - each step followed by a probe of
+		// all six endpoints
+		for _, ae := range []bool{false, true} {
+			r := rng.Fork()
+			now := int64(1600000000 + r.Intn(200000000))
+			for _, c := range acc.IdempotenceScripts(envs[ae], "c11-"+strconv.Itoa(n), now, true) {
+				m := acc.HistMeta{}
+				for i, o := range c.Ops {
+					if o.Req != nil && o.Req.Label != "probe" {
+						m.Steps = append(m.Steps, i)
+					}
+				}
+				addHist(c, m)
+			}
+		}
+		// (9) random stateful histories over a small pool of bearers, booking ids and expiries
+		w := acc.Weights{Session: 5, Deny: 4, Allow: 4, ListDeny: 1, ListAllow: 1, Status: 2, Clock: 4, Repeat: 5}
+		for i := 0; i < a.Pick(60, 1200); i++ {
+			r := rng.Fork()
+			e := envs[r.Bool()]
+			now := int64(1600000000 + r.Intn(200000000))
+			c, m := acc.GenHistory(r, e, "c11-"+strconv.Itoa(n), now, w, r.Range(4, 8), true)
+			addHist(c, m)
+		}
+	}
+
 	coq := make([]string, len(cases))
 	for i := range cases {
 		c := &cases[i]
@@ -355,9 +417,57 @@ func work(a lib.Args) {
 		e.ResetStores()
 		acc.Progress(a.Out, c)
 		rn := acc.NewRunner(e, c.Name)
+		rn.StopOnHang = true
 		rn.Run(c)
-		oracle(*c, i, e, res)
-		coq[i] = c.Coq()
+		isHist := false
+		for _, t := range c.Tags {
+			if t == "hist" {
+				isHist = true
+			}
+		}
+		if isHist {
+			oracleHist(*c, i, res)
+		} else if !rn.Hung {
+			oracle(*c, i, e, res)
+		} else {
+			oracleHist(*c, i, res)
+		}
+		if rn.Hung { // this instance no longer answers: the following cases get a fresh one
+			res.Count("server-replaced-after-hang")
+			envs[c.Cfg.AE] = acc.StartMockAPI(c.Cfg.AE)
+		}
+		idx := make([]string, len(steps[i]))
+		for k, v := range steps[i] {
+			idx[k] = lib.N(uint64(v))
+		}
+		coq[i] = lib.Tuple(c.Coq(), lib.List(idx))
+		if isHist {
+			res.Count("kind:history")
+			res.CountN("history-ops", len(c.Ops))
+			for _, k := range steps[i] {
+				if k < len(c.Outs) && c.Ops[k].Req != nil {
+					q := c.Ops[k].Req
+					res.Count("hist-step:" + q.Route)
+					res.Count("hist-bearer:" + q.Auth.Label)
+					if q.Label == "step-repeat" {
+						res.Count("hist-step:exact-repeat")
+					}
+					if c.Outs[k].NoAnswer != "" {
+						res.Count("hist-answer:none-" + c.Outs[k].NoAnswer)
+					} else {
+						res.Count("hist-status:" + strconv.Itoa(c.Outs[k].Status))
+					}
+				}
+			}
+			for _, t := range c.Tags {
+				if strings.HasPrefix(t, "script:") {
+					res.Count(t)
+				}
+			}
+			res.Cases = append(res.Cases, *c)
+			continue
+		}
+		res.Count("kind:single")
 		x := c.Ops[iX].Req
 		res.Count("route:" + x.Route)
 		res.Count("bearer:" + family(x.Auth.Label))
